@@ -121,7 +121,7 @@ func (D) BaseAssets(flows ...M) M {
 		fj = append(fj, f)
 	}
 	return M{
-		"flows": fj,
+		"flows":    fj,
 		"channels": []M{{"uuid": NamedUUID("chan:android"), "name": "Android", "address": "+17036975131", "schemes": []string{"tel"}, "roles": []string{"send", "receive", "call", "answer"}, "country": "US"}},
 		"fields": []M{
 			{"uuid": NamedUUID("field:gender"), "key": "gender", "name": "Gender", "type": "text"},
@@ -140,14 +140,14 @@ func (D) BaseAssets(flows ...M) M {
 			{"uuid": NamedUUID("group:tel"), "name": "With Tel", "query": `tel != ""`},
 			{"uuid": NamedUUID("group:eng"), "name": "English", "query": `language = "eng"`},
 		},
-		"labels":  []M{{"uuid": NamedUUID("label:spam"), "name": "Spam"}},
-		"globals": []M{{"key": "org_name", "name": "Org Name", "value": "Nyaruka"}, {"key": "limit", "name": "Limit", "value": "18"}},
-		"topics":  []M{{"uuid": NamedUUID("topic:weather"), "name": "Weather"}},
-		"users":   []M{{"email": "bob@nyaruka.com", "name": "Bob"}},
+		"labels":      []M{{"uuid": NamedUUID("label:spam"), "name": "Spam"}},
+		"globals":     []M{{"key": "org_name", "name": "Org Name", "value": "Nyaruka"}, {"key": "limit", "name": "Limit", "value": "18"}},
+		"topics":      []M{{"uuid": NamedUUID("topic:weather"), "name": "Weather"}},
+		"users":       []M{{"email": "bob@nyaruka.com", "name": "Bob"}},
 		"classifiers": []M{{"uuid": NamedUUID("classifier:booking"), "name": "Booking", "type": "wit", "intents": []string{"book_flight", "book_hotel"}}},
-		"resthooks": []M{{"slug": "new-registration", "subscribers": []string{"http://localhost/?cmd=success"}}},
-		"optins":  []M{{"uuid": NamedUUID("optin:jokes"), "name": "Jokes"}},
-		"locations": []M{{"name": "Rwanda", "children": []M{{"name": "Kigali City", "aliases": []string{"Kigali"}, "children": []M{{"name": "Gasabo", "children": []M{{"name": "Gisozi"}}}}}}}},
+		"resthooks":   []M{{"slug": "new-registration", "subscribers": []string{"http://localhost/?cmd=success"}}},
+		"optins":      []M{{"uuid": NamedUUID("optin:jokes"), "name": "Jokes"}},
+		"locations":   []M{{"name": "Rwanda", "children": []M{{"name": "Kigali City", "aliases": []string{"Kigali"}, "children": []M{{"name": "Gasabo", "children": []M{{"name": "Gisozi"}}}}}}}},
 	}
 }
 
